@@ -21,7 +21,17 @@ EXPLANATION = 'C18: algebraic laws of the extracted ==, < and hash formulas of A
 ASSUMPTIONS = ['the digester is a function and the stored type\'s own == / < are an equivalence / strict weak order consistent with each other']
 UNITS = ['w_utils.cpp']
 
-ATOM_RE = re.compile(r'^(\w+)\.get(Digest|Value)\(\) (==|<) (\w+)\.get(Digest|Value)\(\)$')
+ATOM_RE = re.compile(r'^(a|b)\.(.+?) (==|<) (a|b)\.(.+)$')
+KINDS = {'getDigest()': 'D', 'getValue()': 'V'}
+
+
+def atom_kind(text):
+    """Relation an atom compares the two ids by: 'D' digest, 'V' stored value, or 'X:<accessor>' for anything else the ids expose
+    (e.g. getValue().type()): such a relation is modelled like the others, as a weak ordering of the three ids, all of them enumerated."""
+    m = ATOM_RE.match(text)
+    if not m or m.group(2) != m.group(5):
+        return None
+    return KINDS.get(m.group(2), 'X:' + m.group(2))
 
 
 def weak_orderings(n):
@@ -50,14 +60,13 @@ def eval_formula(f, x, y, d, v):
     if k == 'or':
         return eval_formula(f[1], x, y, d, v) or eval_formula(f[2], x, y, d, v)
     m = ATOM_RE.match(f[1])
-    if not m:
+    kind = atom_kind(f[1])
+    if not m or kind is None:
         raise F.Unsupported('unrecognised atom "%s"' % f[1])
-    l, lk, op, r, rk = m.groups()
-    if lk != rk:
-        raise F.Unsupported('mixed atom "%s"' % f[1])
+    l, _, op, r, _ = m.groups()
     sub = {'a': x, 'b': y}
     li, ri = sub[l], sub[r]
-    ranks = d if lk == 'Digest' else v
+    ranks = d if kind == 'D' else (v.get(kind) if isinstance(v, dict) else v)
     if ranks is None:
         raise F.Unsupported('value comparison without comparable storage: "%s"' % f[1])
     return ranks[li] == ranks[ri] if op == '==' else ranks[li] < ranks[ri]
@@ -65,6 +74,7 @@ def eval_formula(f, x, y, d, v):
 
 def check(ctx):
     ctx.rule('C18.L', 'algebraic laws of ==, < and hash over all orderings of three ids')
+    ctx.rule('C18.D', 'digests reach the comparisons unconverted')
     ctx.rule('C18.V', 'the converting constructor stores the value it digested')
     ctx.rule('C18.W', 'AnyId selects the hashed map')
     seen = set()
@@ -78,6 +88,21 @@ def check(ctx):
                 reads = {r for r in reads if r in ('digest', 'value')}
                 ctx.ob('C18.L', f, 'std::hash<AnyId> reads only the digest (ids that compare equal have equal digests, hence equal hashes)',
                        reads == {'digest'}, detail='fields read: %s' % sorted(reads))
+    # digests are compared as what the digester returned: a value-changing conversion on the way to the comparison (e.g. a helper taking
+    # std::size_t when the digester returns double) makes operator< coarser than operator==, which still compares the real digests
+    NUMERIC = ('IntegralCast', 'FloatingToIntegral', 'IntegralToFloating', 'FloatingCast', 'IntegralToBoolean', 'FloatingToBoolean')
+    for tu in ctx.tus:
+        for eqf, ltf, storage in anyid_pairs(tu):
+            for g in (eqf, ltf):
+                bad = []
+                for n, o in g.nodes.items():
+                    if o.get('ck') in NUMERIC:
+                        inner = g.strip_all_casts(g.kids(n)[0]) if g.kids(n) else None
+                        if inner and g.is_call(inner) and (g.callee(inner) or {}).get('name') == 'getDigest':
+                            bad.append('%s (%s to %s)' % (g.nloc(n), o['ck'], tu.tstr(o.get('t'))))
+                ctx.ob('C18.D', g, 'the digests are compared in the digester\'s own result type (no value-changing conversion first)', not bad,
+                       detail='; '.join(bad[:3]), key_detail='digest converted')
+    ctx.require_min('C18.D', 2)
     # the constructor digests the value and then stores it: the value stored is the one supplied only if nothing consumed it in
     # between (a forwarding constructor that forwards twice stores a moved-from value whenever the digester takes by value)
     from ..moves import MoveAnalysis
@@ -91,7 +116,7 @@ def check(ctx):
     ctx.require_min('C18.V', 1)
     ctx.require(len(seen) >= 2, 'C18.L: expected AnyId with both storage kinds (value-comparable and empty) in the witness units, found %d' % len(seen))
     ctx.require_min('C18.L', 3)
-    witness.check_static_unit(ctx, 'C18.W', os.path.join(extract.VERIF, 'witness', 's_select.cpp'), 'AnyId is hashable and selects unordered_map')
+    witness.check_static_unit(ctx, 'C18.W', os.path.join(extract.VERIF, 'witness', 's_select.cpp'), 'AnyId is hashable and selects unordered_map', tag='C18')
 
 
 def anyid_pairs(tu):
@@ -111,11 +136,16 @@ def check_pair(ctx, tu, eqf, ltf, storage, rule='C18.L', only=None):
         feq = F.formula(eqf)
         flt = F.formula(ltf)
     except F.Unsupported as e:
-        raise AnalysisBroken('C18.L: cannot extract AnyId comparison formulas: %s' % e)
-    uses_value = any('getValue' in a for a in F.atoms(feq) + F.atoms(flt))
+        ctx.broken_later('C18.L: cannot extract AnyId comparison formulas: %s' % e)
+        return
+    kinds = sorted({atom_kind(a) or '?' for a in F.atoms(feq) + F.atoms(flt)})
+    uses_value = 'V' in kinds
+    extra = [k for k in kinds if k.startswith('X:')]
     ctx.sample({'rule': 'C18.L', 'storage': storage[:80], '==': F.show(feq), '<': F.show(flt)})
     D = weak_orderings(3)
-    V = weak_orderings(3) if uses_value else [None]
+    vk = (['V'] if uses_value else []) + extra
+    # every relation other than the digest gets its own weak ordering of the three ids; all combinations are enumerated
+    V = [dict(zip(vk, combo)) for combo in itertools.product(weak_orderings(3), repeat=len(vk))] if vk else [None]
     ncases = 0
     fails = {}
 
@@ -138,8 +168,9 @@ def check_pair(ctx, tu, eqf, ltf, storage, rule='C18.L', only=None):
                     law('incomparable under < exactly when ==', inc == eq(x, y), d, v)
                     law('equal ids have equal digests', (not eq(x, y)) or d[x] == d[y], d, v)
                     if uses_value:
-                        law('equal digests with different values are distinct ids', not (d[x] == d[y] and v[x] != v[y]) or not eq(x, y), d, v)
-                        law('equal digests and equal values are equal ids', not (d[x] == d[y] and v[x] == v[y]) or eq(x, y), d, v)
+                        vv = v['V']
+                        law('equal digests with different values are distinct ids', not (d[x] == d[y] and vv[x] != vv[y]) or not eq(x, y), d, v)
+                        law('equal digests and equal values are equal ids', not (d[x] == d[y] and vv[x] == vv[y]) or eq(x, y), d, v)
                     else:
                         law('without value storage ids are equal exactly when digests are', eq(x, y) == (d[x] == d[y]), d, v)
                 for x, y, z in itertools.permutations(range(3), 3):
@@ -150,7 +181,8 @@ def check_pair(ctx, tu, eqf, ltf, storage, rule='C18.L', only=None):
                     incxz = not lt(x, z) and not lt(z, x)
                     law('incomparability is transitive', not (incxy and incyz) or incxz, d, v)
     except F.Unsupported as e:
-        raise AnalysisBroken('C18.L: %s (operator== / operator< of AnyId use a form the analysis does not model)' % e)
+        ctx.broken_later('%s: %s (operator== / operator< of AnyId use a form the analysis does not model)' % (rule, e))
+        return
     names = ['== is reflexive', '== is symmetric', '== is transitive', '< is irreflexive', '< is asymmetric', '< is transitive',
              'incomparability is transitive', 'incomparable under < exactly when ==', 'equal ids have equal digests']
     names += ['equal digests with different values are distinct ids', 'equal digests and equal values are equal ids'] if uses_value else \
